@@ -203,7 +203,8 @@ func deterministic(b *benchseries.Builder, policy int) bool {
 		seenT[t] = true
 	}
 	type key struct{ t, a, b string }
-	hp := map[key][2]string{}
+	type contrib struct{ bench, hash, base string }
+	groups := map[key][]contrib{} // (table, series) -> contributions
 	dates := map[key]map[string]bool{}
 	for _, c := range cs {
 		d, err1 := benchseries.NormalizeDateString(c.Exp)
@@ -212,10 +213,7 @@ func deterministic(b *benchseries.Builder, policy int) bool {
 			continue
 		}
 		k := key{c.Table, s, ""}
-		if old, ok := hp[k]; ok && old != [2]string{c.Hash, c.BaseHash} {
-			return false
-		}
-		hp[k] = [2]string{c.Hash, c.BaseHash}
+		groups[k] = append(groups[k], contrib{c.Bench, c.Hash, c.BaseHash})
 		if policy == benchseries.DUPE_REPLACE {
 			k2 := key{c.Table, c.Bench, s}
 			if dates[k2] == nil {
@@ -225,6 +223,40 @@ func deterministic(b *benchseries.Builder, policy int) bool {
 				return false
 			}
 			dates[k2][d] = true
+		}
+	}
+	// hash pair of a series point (after 83c6e29): one numerator hash; the non-empty baseline
+	// hashes agree; under combine only the first-visited contribution of each cell speaks, so a
+	// non-empty baseline hash must be certain to be heard (some cell has only such contributions).
+	for _, g := range groups {
+		nonEmpty := ""
+		for _, c := range g {
+			if c.hash != g[0].hash {
+				return false
+			}
+			if c.base != "" {
+				if nonEmpty != "" && nonEmpty != c.base {
+					return false
+				}
+				nonEmpty = c.base
+			}
+		}
+		if policy != benchseries.DUPE_REPLACE && nonEmpty != "" {
+			sure := false
+			for _, c := range g {
+				all := true
+				for _, d := range g {
+					if d.bench == c.bench && d.base == "" {
+						all = false
+					}
+				}
+				if all {
+					sure = true
+				}
+			}
+			if !sure {
+				return false
+			}
 		}
 	}
 	return true
@@ -261,6 +293,11 @@ func permutations(n int) [][]int {
 var id int
 
 func seriesCase(rs []res, ntable, policy int, r *hx.Rand, tags []string) {
+	seriesCaseN(rs, ntable, policy, r, tags, 3)
+}
+
+// seriesCaseN repeats every insertion order reps times in-process (map iteration order is random per run).
+func seriesCaseN(rs []res, ntable, policy int, r *hx.Rand, tags []string, reps int) {
 	cid := id
 	id++
 	if len(tags) == 0 {
@@ -298,7 +335,6 @@ func seriesCase(rs []res, ntable, policy int, r *hx.Rand, tags []string) {
 		}
 	}
 	inv := 1
-	reps := 3 // map iteration order is random per run: repeat every order
 	for _, o := range orders {
 		for k := 0; k < reps; k++ {
 			d, _ := runSeries(rs, o, ntable, policy)
@@ -477,11 +513,37 @@ func corpusSeries(r *hx.Rand) {
 	tn[0].table, tn[1].table = []string{"a b", "c"}, []string{"a b", "c"}
 	tn[2].table, tn[3].table = []string{"a", "b c"}, []string{"a", "b c"}
 	seriesCase(tn, 2, 0, r, []string{"corpus", "blank"})
+	// shared baseline cell (see aliasShape)
+	seriesCaseN(aliasShape(r, 5, 2), 0, 1, r, []string{"corpus", "alias", "multiexp", "multiser"}, 8)
+	seriesCaseN(aliasShape(r, 5, 2), 0, 0, r, []string{"corpus", "alias", "multiexp", "multiser"}, 3)
 	// well-formed multi-experiment replace / combine
 	wf := []res{mk("Foo", "num", "2020-01-01T00:00:00Z", 1), mk("Foo", "den", "2020-01-01T00:00:00Z", 3), mk("Foo", "num", "20200102T000000", 2), mk("Foo", "den", "20200102T000000", 4), mk("Foo", "num", "2020-01-01T00:00:00Z", 7)}
 	for pol := 0; pol < 2; pol++ {
 		seriesCase(wf, 2, pol, r, []string{"corpus", "multiexp"})
 	}
+}
+
+// aliasShape: one experiment measures several numerator hashes (= several series points) against ONE
+// baseline cell of nden samples (5 samples sit in a backing array of capacity 8), and every hash is
+// measured again, with its own baseline, in a later experiment.  Under DUPE_COMBINE the points share the
+// first baseline cell; a combine step that appends in place would let them overwrite each other.
+func aliasShape(r *hx.Rand, nden, nhash int) []res {
+	var rs []res
+	mk := func(role, exp string, h int, v float64) res {
+		return res{table: []string{"amd64", "linux"}, bench: "Foo", exp: exp, ser: stampsA[h], role: role, nh: "n" + strconv.Itoa(h), dh: "d", units: []string{"sec"}, vals: []float64{v}}
+	}
+	for i := 0; i < nden; i++ {
+		rs = append(rs, mk("den", expsA[5], 0, float64(10+i)))
+	}
+	for h := 0; h < nhash; h++ {
+		rs = append(rs, mk("num", expsA[5], h, float64(1+h)))
+	}
+	for h := 0; h < nhash; h++ {
+		e := expsA[h%5]
+		rs = append(rs, mk("num", e, h, float64(5+h)))
+		rs = append(rs, mk("den", e, h, float64(20+10*h)+float64(r.Intn(4))))
+	}
+	return rs
 }
 
 // ---------------------------------------------------------------- bootstrap
@@ -804,7 +866,8 @@ func dateCases(r *hx.Rand) {
 		"2020-01-01T00:00:00", "2020-1-01T00:00:00Z", "20201301T000000", "2020-01-01 00:00:00Z", "2020-01-01T00:00:00+0100", "2020-01-01T00:00:00.Z",
 		" 2020-01-01T00:00:00Z", "2020-01-01T00:00:00Z\n", "20200101T000000\n", "2021-02-29T00:00:00Z", "2020-02-29T00:00:00Z", "1900-02-29T00:00:00Z", "2000-02-29T00:00:00Z",
 		"2020-00-10T00:00:00Z", "2020-01-00T00:00:00Z", "2020-01-01T00:00:00+1:00", "2020-04-31T00:00:00Z", "", "yesterday", "20200101T0000", "20200101T0000000", "2020-12-31T23:59:59.999999999-00:01",
-		"20200229T235959", "20210229T000000", "20200101T240000", "20200101T006000", "20200101T000060", "2020-01-01T00:00:00.000000000Z", "2020-01-01T00:00:00.000Z", "2020-06-15T12:00:00+05:30", "2020-03-01T00:30:00+01:00", "2021-03-01T00:30:00+01:00", "2021-01-01T00:00:00+14:00"}
+		"20200229T235959", "20210229T000000", "20200101T240000", "20200101T006000", "20200101T000060", "2020-01-01T00:00:00.000000000Z", "2020-01-01T00:00:00.000Z", "2020-06-15T12:00:00+05:30", "2020-03-01T00:30:00+01:00", "2021-03-01T00:30:00+01:00", "2021-01-01T00:00:00+14:00",
+		"2022-03-04T10:00:51.500000+00:00", "2022-03-04T10:00:51.5Z", "2022-03-04T10:00:51.000+00:00", "2022-03-04T9:00:51+00:00", "2022-03-04T10:00:51,25+00:00", "2022-03-04T10:00:51.1234567890+00:00", "2022-03-04T10:00:51+00:00"}
 	for _, s := range fixed {
 		dateCase(s, "fixed")
 	}
@@ -826,6 +889,12 @@ func dateCases(r *hx.Rand) {
 		}
 		dateCase(s, tag)
 	}
+	// spellings that already end in "+00:00" must still be canonicalised
+	datePair("2022-03-04T10:00:51.500000+00:00", "2022-03-04T10:00:51.5Z", "fixed+same+zero")
+	datePair("2022-03-04T10:00:51.000+00:00", "20220304T100051", "fixed+same+zero")
+	datePair("2022-03-04T9:00:51+00:00", "2022-03-04T09:00:51Z", "fixed+same+zero")
+	datePair("2022-03-04T10:00:51,5+00:00", "2022-03-04T11:00:51.50+01:00", "fixed+same+zero")
+	datePair("2022-03-04T10:00:51.50+00:00", "2022-03-04T10:00:51.6+00:00", "fixed+frac+zero")
 	m := hx.N(2500, 40000)
 	for i := 0; i < m; i++ {
 		t := genInst(r)
@@ -866,6 +935,10 @@ func main() {
 	for i := 0; i < nl; i++ {
 		rs, nt, tags := genSeries(r, 6+r.Intn(20))
 		seriesCase(rs, nt, r.Intn(2), r, append(tags, "large"))
+	}
+	na := hx.N(8, 150)
+	for i := 0; i < na; i++ {
+		seriesCaseN(aliasShape(r, []int{5, 3, 6, 2}[r.Intn(4)], 2+r.Intn(2)), 0, 1, r, []string{"alias", "multiexp", "multiser", "large"}, 4)
 	}
 	bootstrapCases(r)
 	dateCases(r)
